@@ -105,6 +105,7 @@ pub unsafe fn reset() {
     CHILD_FAIL_AT = 0;
     CHILD_FAILED = false;
     KERNEL_REFUSED = false;
+    EXPECT_STD_REFUSAL = false;
     CHILD_FAILED_STEP = 0;
     STEPS_SEEN = 0;
     RUID = 0;
@@ -270,6 +271,9 @@ pub unsafe fn child_step_fails(s: Step) -> bool {
     false
 }
 
+/// The harness expects std itself to refuse a child-side step before any system
+/// call (e.g. a working directory containing NUL): the child must then report -1.
+pub static mut EXPECT_STD_REFUSAL: bool = false;
 /// The model kernel itself refuses a child-side step (e.g. EPERM): a real failure of the launch.
 pub static mut KERNEL_REFUSED: bool = false;
 pub unsafe fn child_kernel_refusal(e: c_int) -> c_int {
@@ -634,6 +638,10 @@ pub unsafe extern "C" fn _exit(status: c_int) -> ! {
     on_syscall();
     vmodel!(IN_CHILD, "MODEL/_exit: _exit called outside the forked child");
     EXITED_WITH = status;
+    if EXPECT_STD_REFUSAL && !CHILD_FAILED && !EXEC_FAILED_ONCE {
+        CHILD_FAILED = true;
+        EXPECT_REPORT = -1;
+    }
     kani::cover!(CHILD_FAILED, "COVER/child-step-failed");
     vcheck!(C06, !(KERNEL_REFUSED && EXP_ID_SET && CHILD_FAIL_AT == 0), "C06/identity-applied: a root parent requested user id and group id but the launch failed with EPERM (the identity changes were issued in an order the kernel refuses)");
     kani::cover!(EXEC_FAILED_ONCE && !CHILD_FAILED, "COVER/child-exec-failed");
